@@ -241,6 +241,40 @@ TREE_OUTSIDE = 'longer texts, other characters than the alphabet classes (line b
 TREE_ASSUME = ['symbolic text bytes range over the stated ASCII alphabet; the oracles depend only on character classes, which every explored path is checked to determine',
                'Rope is used by contract "behaves as the flat string" (textmodel.py); the real rope.rs is the subject of C16']
 
+# ------------------------------------------------------------------------------------------------ rope.rs (real code)
+ALLOBS = ['basic', 'bytes', 'chars', 'lines', 'pairs']
+ROPE_QUICK = [
+    ('mixed', [['from', '?b\n?'], ['add', 0, 'c?'], ['from_iter', ['?b', '\n?c?']], ['new'], ['add', 2, '?'], ['from', 'a\n'], ['append', 3, 2]], ALLOBS),
+    ('light vs full prefix', [['from', '?bc'], ['from_iter', ['?', 'b']], ['from_iter', ['a', 'b', 'c']], ['from_iter', ['a', 'b', 'b']], ['from_iter', ['ab', 'c']]], ['basic', 'pairs']),
+    ('slice with empty pieces', [['from', '?\n'], ['new'], ['add', 1, '?'], ['append', 0, 1], ['slice', 0, '?', '?']], ALLOBS),
+    ('multi-byte slice', [['from_iter', ['\u00e9?', '\n\u20ac', '?']], ['slice', 0, '?', '?']], ['basic', 'bytes', 'chars', 'lines']),
+    ('empty multi-piece', [['from_iter', ['']], ['from_iter', ['', '']], ['new'], ['slice', 0, '?', '?']], ALLOBS),
+    ('4 pieces cut inside lines', [['from_iter', ['?\n?', '?', '?\n', '?']], ['from', 'a\nbb\nc'], ['slice', 0, '?', '?']], ALLOBS),
+    ('slice of slice', [['from_iter', ['??', '??', '??']], ['slice', 0, '?', '?'], ['slice', 1, '?', '?']], ['basic', 'bytes', 'chars', 'pairs']),
+    ('append full+full, light+full', [['from_iter', ['?', '?']], ['from_iter', ['?\n', '?']], ['append', 0, 1], ['from', '?'], ['append', 2, 0], ['clone', 2], ['add', 3, '?']], ALLOBS),
+    ('line across 4 fragments', [['from_iter', ['a\n?', '?', '?', '?\n?']], ['from_iter', ['?', '\n', '?', '?', '\n']]], ['basic', 'lines', 'pairs']),
+    ('light ropes', [['from', '?\n?\n'], ['from', ''], ['from', '\u00e9\n'], ['slice', 0, '?', '?']], ALLOBS),
+]
+ROPE_THOROUGH = [
+    ('5 pieces two slices', [['from_iter', ['?\n', '', '??', '\n', '?']], ['slice', 0, '?', '?'], ['slice', 0, '?', '?']], ALLOBS),
+    ('append chains', [['new'], ['add', 0, '?'], ['add', 0, '\n'], ['from_iter', ['?', '?\n?']], ['append', 0, 1], ['append', 1, 0], ['slice', 1, '?', '?']], ALLOBS),
+    ('multi-byte 4 pieces', [['from_iter', ['\u00e9', '\u20ac?', '\U0001F600', '?\n']], ['slice', 0, '?', '?'], ['from', '\u00e9\u20aca\U0001F600b\n']], ALLOBS),
+]
+WI_QUICK = [('str ascii', 'a?c?', 'str'), ('str multi-byte', '\u00e9?\u20ac?\U0001F600', 'str'), ('str empty', '', 'str'),
+            ('rope pieces multi-byte', ['\u00e9?', '\u20ac', '?\U0001F600'], 'rope'), ('rope with empty piece', ['a?', '', '?\n'], 'rope')]
+
+
+def rope_jobs(tier, seed):
+    jobs = [J('rope:' + t[0], 'jobs.rope:rope_job', dict(program=t[1], observe=t[2]), timeout=600) for t in ROPE_QUICK]
+    if tier == 'thorough':
+        jobs += [J('rope:' + t[0], 'jobs.rope:rope_job', dict(program=t[1], observe=t[2]), required=False, timeout=3000) for t in ROPE_THOROUGH]
+    return jobs
+
+
+def wi_jobs(tier, seed):
+    return [J('with_indices:' + t[0], 'jobs.rope:with_indices_job', dict(text=t[1], kind=t[2]), timeout=300) for t in WI_QUICK]
+
+
 PROPS = {
     'C12': dict(jobs=[codec_c12],
                 bounds={'quick': 'encode_vlq: all u32 a,b with |a-b| < 2^30; decoder vs format: skeletons of <= 3 segments, <= 3 digits per field, every digit symbolic; '
@@ -262,6 +296,10 @@ PROPS = {
     'C11': dict(jobs=[tree_jobs(['C11']), replace_jobs(['C11']), sms_jobs(['C11']), codec_c11], bounds=RTREE_BOUNDS, outside=TREE_OUTSIDE, assumptions=TREE_ASSUME),
     'C13': dict(jobs=[c13_jobs], bounds={'quick': 'catalog lib/props.py:C13_QUICK: nested boxed ConcatSource groupings (depth <= 3) vs the flat concatenation; single-child / empty-children ConcatSource, boxing and a ReplaceSource without replacements vs the wrapped source; <= 4 symbolic bytes; text, per-position attribution through map() (both column settings) and through the chunk stream, end info', 'thorough': 'as quick'},
                 outside=TREE_OUTSIDE + '; typed nesting flattened by ConcatSource::new/add and CachedSource wrappers until their stages are registered', assumptions=TREE_ASSUME),
+    'C16': dict(jobs=[rope_jobs], bounds={'quick': 'rope.rs itself interpreted from MIR (no Rope contract): construction programs of the catalog ROPE_QUICK (<= 7 steps over new/from/from_iter/add/append/clone/get_byte_slice, <= 5 pieces incl. empty pieces, 1-4 byte UTF-8 characters, pieces cut inside lines; piece CONTENT symbolic over {a,b}, line structure concrete; slice bounds SYMBOLIC in [0, len+1]); every observer on every register, all pairs for ==, starts_with, == &str; get_byte at every index', 'thorough': 'as quick plus ROPE_THOROUGH'},
+                outside='programs longer than the catalog; symbolic line structure; Rc/Vec allocation behaviour (Rc::make_mut is modelled as copy-on-write), Hash of ropes', assumptions=['Vec / Rc / VecDeque / binary_search_by are contracts (msx/contracts.py); std::binary_search_by is modelled by the algorithm of Rust 1.82+ (returns the last of several equal keys) - rope.rs relies on that unspecified behaviour']),
+    'C19': dict(jobs=[rope_jobs, wi_jobs, codec_c11], bounds={'quick': 'unsafe sites reached through checked contracts: slice::get_unchecked / str::get_unchecked / Rope::byte_slice_unchecked (rope jobs of C16 and WithIndices::substring with SYMBOLIC char indices incl. usize::MAX over multi-byte &str and Rope lines), String::from_utf8_unchecked in both encoders (ASCII obligation on every drain)', 'thorough': 'as quick'},
+                outside='the two lifetime-extending transmutes (replace_source.rs, cached_source.rs): the replacement vector is only borrowed during a stream call (&mut self excludes mutation) - decided for CachedSource by the C18 schedules when registered; misaligned access / allocator-level UB (no raw pointer arithmetic in the crate); sanitizer runs are not part of this technique', assumptions=['an unchecked operation is modelled as its checked form whose failure is reported']),
     'C17': dict(jobs=[codec_c17, sms_jobs(['C17'], True), tree_jobs(['C17']), replace_jobs(['C17'])],
                 bounds={'quick': 'decoder: inductive step over ONE byte (all 256 values) from every decoder state satisfying the stated invariant - covers strings of every length < 2^31; '
                                  'plus all byte strings of length <= 3 and continuation runs of 12/13/14/20 digits in each of the 5 field slots, debug and release MIR',
